@@ -147,7 +147,7 @@ pub fn check_incoming_htlc_cltv(
 	
 	
 	
-	if !(cltv_expiry > cur_height + HTLC_FAIL_BACK_BUFFER as u32) {
+	if cltv_expiry <= cur_height + HTLC_FAIL_BACK_BUFFER as u32 {
 		return Err(LocalHTLCFailureReason::CLTVExpiryTooSoon);
 	}
 	if cltv_expiry > cur_height + CLTV_FAR_FAR_AWAY as u32 {
